@@ -608,6 +608,30 @@ def check_prune(ctx, ex, p, drv, loop, F, R, Scur, cand, Fnew, m, M, t, tcode, f
         return
     base, chain = filter_chain(newS.nf)
     if not nf_equal(base, Scur):
+        # a candidate dropped by its POSITION (`starts = starts[1:]`) under a test of the NUMBER of candidates: the
+        # candidates are not consecutive integers once saving-based pruning has removed interior starts, so "more than
+        # max - min candidates" does not mean "the oldest one is too long" (and fewer does not mean it is not)
+        top = single_atom(newS.nf)
+        if top is not None and top.kind == "app" and top.args[0] == "idx" and len(top.args[2]) == 1 and top.args[2][0][0] == "slice":
+            lo_ = lift(top.args[2][0][1]).as_const() if top.args[2][0][1] is not None else None
+            # the decisions of this iteration that look at the candidates: at their NUMBER (len / count / size of the
+            # carried array or of a filtered version of it) or at their VALUES (an element, the minimum / maximum)
+            tag = f".{sname}.in"
+            by_count = by_value = False
+            for c_, _v in p.facts:
+                t_ = getattr(c_, "t", None)
+                if not t_ or t_[0] != "cmp":
+                    continue
+                for a_ in atoms_of(t_[2], deep=False).values():
+                    if a_.kind != "app" or tag not in repr(a_):
+                        continue
+                    if a_.args[0] in ("len", "count", "size"):
+                        by_count = True
+                    elif a_.args[0] in ("idx", "minall", "maxall", "min", "max"):
+                        by_value = True
+            if lo_ is not None and lo_ >= 1 and by_count and not by_value:
+                ctx.violation("C03.e PRUNE-FORM", "positional-drop", drv.loc(), "the oldest candidates are dropped by position under a test of how many candidates there are: after saving-based pruning the candidate starts are not consecutive, so the count says nothing about the length t + 1 - starts[0] of the longest candidate segment (too-long segments stay admissible / admissible ones are lost)", found=repr(R(newS.nf))[:160], expected="starts[~(starts < t + 2 - max_segment_length)] (a test of the VALUES)")
+                return
         ctx.undecided("C03.f PRUNE-DIST", "candidate-update", drv.loc(), "the next candidate set is not a filtered version of the evaluated one", found=repr(R(newS.nf)))
         return
     want_prune, _ = run_spec(ctx, "dp", "capa_prune", lambda sx: [Num(cand, None, "float"), Num(Fnew, (), "float"), Num(ca_, (), "float"), _betas(sx)])
